@@ -20,22 +20,27 @@ def run(c):
     else:
         c.mc("RevCache", "RevCacheMC.%s.cfg" % c.tier, timeout=3000)
         trace = c.scratch + "/revcache.ndjson"
-        args = ["-n", 1500, "-rounds", 4, "-tmax", 7] if c.thorough else ["-n", 400, "-rounds", 1, "-tmax", 5]
+        args = ["-n", 1500, "-conc", 1500, "-rounds", 4, "-tmax", 7] if c.thorough else \
+               ["-n", 400, "-conc", 200, "-rounds", 1, "-tmax", 5]
         p = c.run_driver(drv, ["-out", trace] + args, timeout=3000)
         c.notes.append("driver: " + p.stdout.strip().splitlines()[-1])
     r = c.validate("RevCacheTrace", "RevCacheTrace.cfg", trace, timeout=3000)
     c.judge_trace(r, trace)
-    ntr = evs = wide = 0
+    ntr = evs = wide = nburst = 0
     shapes = set()
     for t in vlib.split_traces(trace):
         ntr += 1
         calls = [e for e in t if e["ev"] != "reset"]
-        evs += len(calls)
+        evs += sum(len(e["ops"]) if e["ev"] == "burst" else 1 for e in calls)
         wide += sum(1 for e in calls if e["lo"] != e["hi"])
+        if any(e["ev"] == "burst" for e in calls):
+            nburst += 1
         # non-trivial: an insert hit an occupied slot (accepted or not) or a lookup came after an expiry
         seen = set()
         nontrivial = False
         for e in calls:
+            if e["ev"] == "burst":
+                nontrivial = True
             if e["ev"] == "ins":
                 if e["k"] in seen:
                     nontrivial = True
@@ -53,6 +58,7 @@ def run(c):
                      "DeleteExpired call judged by TLC; non-trivial = some insert met an occupied slot or a "
                      "lookup found an accepted revocation gone; distinct = distinct call sequences with "
                      "timestamps relative to the call time")
+    c.notes.append("histories ending in a burst of concurrent callers (linearizability search by TLC): %d" % nburst)
     c.notes.append("calls with a two-second window (either outcome accepted): %d of %d" % (wide, evs))
     nd = r.out.count('"VERIF-DRIFT"')
     if nd:
@@ -62,4 +68,8 @@ def run(c):
                       "lifetimes, calls are made mid-second and a call within 250 ms of a whole second is "
                       "judged against both seconds",
                       "sub-second expiry behaviour is not examined",
-                      "the count returned by DeleteExpired and GetAll are outside the property"]
+                      "the count returned by DeleteExpired is outside the property; GetAll is judged as the "
+                      "lookup of every key at once",
+                      "concurrent callers: the cache exposes no hook to order operations, so bursts are judged by "
+                      "searching a linearization from invocation/response stamps (interleavings are sampled by the "
+                      "Go scheduler, 2-4 callers x 1-3 calls)"]
